@@ -1,3 +1,4 @@
+import histories
 import layouts
 
 
@@ -11,6 +12,8 @@ CHECKS = {
     "C02": layouts.check_c02,
     "C04": layouts.check_c04,
     "C05": layouts.check_c05,
+    "C06": histories.check_c06,
+    "C07": histories.check_c07,
     "C08": layouts.check_c08,
 }
 WARM = [warm_layouts]
